@@ -185,6 +185,12 @@ def run(chk):
         runner.finish(oracle)
         chk.sample(runner.describe(runner.observations[1]))
         host_closes_connection(chk, rng, stack, callers)
+        after = pipe.abort_storm(stack, callers, n=30 if chk.tier == "quick" else 200)
+        chk.case(nontrivial_key=("abort-storm", after and after["status"]))
+        if after is None or after["status"] != 200 or after["body"] != b"ok":
+            chk.violation("after other clients hung up mid-request, a request is no longer relayed to the host and answered with the host's response",
+                          {"clients": "30 connections reset right after sending a request, actors slowed by 4 ms per message"}, expected="200 'ok' from the host",
+                          observed=after and (after["status"], after["body"][:60]))
         # keep-alive / pipelining
         rounds = 3 if chk.tier == "quick" else 60
         for k in range(rounds):
